@@ -590,6 +590,11 @@ func (s *S) ins(depth int) sv[builder.InsertBuilder] {
 			a := s.exps(depth-1, ncol, ncol)
 			b, p = b.Values(a.V...), p+".Values("+a.P+")"
 		}
+		// a structural conflict (both VALUES and a query): an error in every option combination
+		if depth > 0 && s.chance(0.06) {
+			q := s.sel(depth-1, false)
+			b, p = b.Query(q.V), p+".Query("+q.P+")"
+		}
 	}
 	if s.chance(0.45) {
 		var oc builder.OnConflictInsertBuilder
@@ -599,6 +604,10 @@ func (s *S) ins(depth int) sv[builder.InsertBuilder] {
 			if s.chance(0.3) {
 				w := s.exp(depth - 1)
 				oc, p = oc.Where(w.V), p+".Where("+w.P+")"
+			}
+			// a structural conflict (conflict targets and a constraint name)
+			if s.chance(0.1) {
+				oc, p = oc.OnConstraint("t_pkey"), p+`.OnConstraint("t_pkey")`
 			}
 		} else {
 			oc, p = b.OnConflict(), p+".OnConflict()"
